@@ -13,7 +13,7 @@ REPO = os.environ.get("VERIF_REPO", "/repo")
 GO = os.environ.get("VERIF_GO", "go1.26")
 
 SEQ = {"C10", "C11", "C16", "C18", "C19", "C20"}
-SCHED = {"C01", "C02", "C03", "C04", "C05", "C06", "C07", "C08", "C09", "C12", "C13", "C14", "C15", "C17"}
+SCHED = {"S00", "C01", "C02", "C03", "C04", "C05", "C06", "C07", "C08", "C09", "C12", "C13", "C14", "C15", "C17"}
 
 
 def goenv():
@@ -96,11 +96,11 @@ def main():
             code = subprocess.run([binp, pid, tier] + rest, cwd=VERIF, env=goenv()).returncode
         elif pid in SCHED:
             ov = instrument(workdir, "sched")
-            binp = build("./cmd/ccheck", workdir, ov)
+            binp = build("./cmd/ccheck", workdir, ov, tags="verif,verifsched")
             env = goenv()
             racebin = ""
             if pid in ("C08", "C12"):
-                racebin = build("./cmd/ccheck", workdir, ov, race=True)
+                racebin = build("./cmd/ccheck", workdir, ov, race=True, tags="verif,verifsched")
             env["VERIF_RACE_BIN"] = racebin
             env["VERIF_WORKDIR"] = workdir
             code = subprocess.run([binp, pid, tier] + rest, cwd=VERIF, env=env).returncode
